@@ -121,20 +121,7 @@ def to_string_harness(kind, part="validity"):
                  "begin --> end with begin <= end, in-range zero-padded fields; serialisation fails only for intervals that vanish at millisecond precision")
 
 
-def _region_and_p(isd, top, height, display_align, text_align=None, direction=None):
-  region = ISD.Region("r1", isd)
-  region.set_style(SP.DisplayAlign, display_align)
-  region.set_style(SP.Position, sp.PositionType(h_offset=sp.LengthType(10, sp.LengthType.Units.rw), v_offset=sp.LengthType(top, sp.LengthType.Units.rh)))
-  region.set_style(SP.Extent, sp.ExtentType(height=sp.LengthType(height, sp.LengthType.Units.rh), width=sp.LengthType(80, sp.LengthType.Units.rw)))
-  p = m.P(isd)
-  if text_align is not None:
-    p.set_style(SP.TextAlign, text_align)
-  if direction is not None:
-    p.set_style(SP.Direction, direction)
-  s = m.Span(isd)
-  s.push_child(m.Text(isd, "x"))
-  p.push_child(s)
-  return region, p
+from replayers.c07 import region_and_p as _region_and_p    # shared with the native replayers (which run without the solver)
 
 
 def line_harness(display_align):
